@@ -299,11 +299,23 @@ func fieldByName(r reflect.Value, name string) reflect.Value {
 	return r
 }
 
+// describe returns what an error message says about v: the value itself if
+// it is a scalar, only its type if it is a container, a struct, a pointer or
+// a func. A container can be arbitrarily large, and formatting one that
+// contains itself (m["self"] = m) never ends.
+func describe(v Value) string {
+	switch reflect.ValueOf(v).Kind() {
+	case reflect.Map, reflect.Slice, reflect.Array, reflect.Struct, reflect.Ptr, reflect.Interface, reflect.Func, reflect.Chan:
+		return fmt.Sprintf("%T", v)
+	}
+	return fmt.Sprintf("%v", v)
+}
+
 // GetAttr attempts to access the given value and return the specified attribute.
 func GetAttr(v Value, attr Value, args ...Value) (Value, error) {
 	r := reflect.Indirect(reflect.ValueOf(v))
 	if !r.IsValid() {
-		return nil, fmt.Errorf("getattr: value does not support attribute lookup: %v", v)
+		return nil, fmt.Errorf("getattr: value does not support attribute lookup: %v", describe(v))
 	}
 	var retval reflect.Value
 	switch r.Kind() {
@@ -311,7 +323,7 @@ func GetAttr(v Value, attr Value, args ...Value) (Value, error) {
 		strval := CoerceString(attr)
 		retval = fieldByName(r, strval)
 		if retval.IsValid() && !retval.CanInterface() {
-			return nil, fmt.Errorf("getattr: unable to access unexported field \"%s\" on \"%v\"", strval, v)
+			return nil, fmt.Errorf("getattr: unable to access unexported field \"%s\" on \"%v\"", strval, describe(v))
 		}
 		if !retval.IsValid() {
 			var err error
@@ -330,19 +342,19 @@ func GetAttr(v Value, attr Value, args ...Value) (Value, error) {
 		}
 	}
 	if !retval.IsValid() {
-		return nil, fmt.Errorf("getattr: unable to locate attribute \"%v\" on \"%v\"", attr, v)
+		return nil, fmt.Errorf("getattr: unable to locate attribute \"%v\" on \"%v\"", describe(attr), describe(v))
 	}
 	if retval.Kind() == reflect.Func {
 		if retval.IsNil() {
-			return nil, fmt.Errorf("getattr: attribute \"%v\" on \"%v\" is a nil func", attr, v)
+			return nil, fmt.Errorf("getattr: attribute \"%v\" on \"%v\" is a nil func", describe(attr), describe(v))
 		}
 		t := retval.Type()
 		if t.NumOut() > 1 {
-			return nil, fmt.Errorf("getattr: multiple return values unsupported, called method \"%s\" on \"%v\"", attr, v)
+			return nil, fmt.Errorf("getattr: multiple return values unsupported, called method \"%s\" on \"%v\"", attr, describe(v))
 		}
 		numIn := t.NumIn()
 		if (!t.IsVariadic() && numIn != len(args)) || (t.IsVariadic() && len(args) < numIn-1) {
-			return nil, fmt.Errorf("getattr: method \"%s\" on \"%v\" expects %d parameter(s), %d given", attr, v, numIn, len(args))
+			return nil, fmt.Errorf("getattr: method \"%s\" on \"%v\" expects %d parameter(s), %d given", attr, describe(v), numIn, len(args))
 		}
 		rargs := make([]reflect.Value, len(args))
 		for k, arg := range args {
@@ -354,7 +366,7 @@ func GetAttr(v Value, attr Value, args ...Value) (Value, error) {
 			}
 			rarg, ok := callArg(arg, pt)
 			if !ok {
-				return nil, fmt.Errorf("getattr: method \"%s\" on \"%v\": cannot use argument %d (%T) as %s", attr, v, k+1, arg, pt)
+				return nil, fmt.Errorf("getattr: method \"%s\" on \"%v\": cannot use argument %d (%T) as %s", attr, describe(v), k+1, arg, pt)
 			}
 			rargs[k] = rarg
 		}
@@ -503,7 +515,7 @@ func getMethod(v Value, name string) (reflect.Value, error) {
 	if retVal.IsValid() {
 		return retVal, nil
 	}
-	return retVal, fmt.Errorf("stick: unable to locate method \"%s\" on \"%v\"", name, v)
+	return retVal, fmt.Errorf("stick: unable to locate method \"%s\" on \"%v\"", name, describe(v))
 }
 
 // An Iteratee is called for each step in a loop.
@@ -611,7 +623,7 @@ func Iterate(val Value, it Iteratee) (int, error) {
 		}
 		return ln, nil
 	default:
-		return 0, fmt.Errorf(`stick: unable to iterate over %s "%v"`, r.Kind(), val)
+		return 0, fmt.Errorf(`stick: unable to iterate over %s "%v"`, r.Kind(), describe(val))
 	}
 }
 
@@ -625,7 +637,7 @@ func Len(val Value) (int, error) {
 	case reflect.Slice, reflect.Array, reflect.Map:
 		return r.Len(), nil
 	}
-	return 0, fmt.Errorf(`stick: could not get Length of %s "%v"`, r.Kind(), val)
+	return 0, fmt.Errorf(`stick: could not get Length of %s "%v"`, r.Kind(), describe(val))
 }
 
 // Equal returns true if the two Values are considered equal.
